@@ -292,15 +292,22 @@ func (r *replicator) processHash(ctx context.Context, item processItem) ([]cid.C
 		return nil, fmt.Errorf("unable to fetch log: entry %s was not fetched", hash)
 	}
 
-	r.muBuffer.Lock()
-	r.buffer = append(r.buffer, l)
-	r.muBuffer.Unlock()
-
 	var nextValues []cid.Cid
 	for _, e := range l.Values().Slice() {
+		// an entry written for another database is never handed over for merging (Join filters such
+		// entries out of the log but still merges them into its heads), and its ancestry is not followed
+		if e.GetLogID() != l.GetID() {
+			r.logger.Debug("discarding entry written for another database", zap.String("hash", hash.String()))
+			return nil, nil
+		}
+
 		nextValues = append(nextValues, e.GetNext()...)
 		nextValues = append(nextValues, e.GetRefs()...)
 	}
+
+	r.muBuffer.Lock()
+	r.buffer = append(r.buffer, l)
+	r.muBuffer.Unlock()
 
 	return nextValues, nil
 }
